@@ -1,4 +1,5 @@
 import MJ.Model.Num
+import MJ.Model.NumLex
 /-! Line driver for C08: `<op> <A> [<B>]` → `case<TAB>model<TAB>spec`.
 
 * model: result of the Lean model of the engine (`i:<dec>` / `err:InvalidOperation`), `skip` for
@@ -8,25 +9,53 @@ import MJ.Model.Num
   must be an error), `-` (not an integer case). -/
 open MJ.Num
 
-/-- how the lexer stores a non-negative integer literal (`u64::from_str_radix`, else `u128`) -/
-def litRepr (n : Nat) : NumRepr :=
-  if n < 18446744073709551616 then .u64 n else .u128 n
+/-- how the lexer stores a non-negative decimal integer literal (`u64::from_str_radix`, else `u128`) -/
+def litRepr (n : Nat) : NumRepr := MJ.NumLex.reprOf n
 
-/-- operand token → (the value the engine computes with, mathematical value).  A negative literal
-    is the unary minus applied to the literal (folded by the code generator when it succeeds, an
+/-- an operand as the engine sees it: a value, a syntax error of the lexer, or outside the model -/
+inductive Opd where
+  | val (r : Res)
+  | syntaxErr
+
+/-- a literal as written in the template: optional `(-` … `)` or `-` around a number spelled in any
+    radix with separators; lexed by the model of `eat_number` -/
+def lexLiteral (text : String) : Option Opd :=
+  let t := if text.startsWith "(" ∧ text.endsWith ")" then ((text.drop 1).dropEnd 1).toString else text
+  let negated := t.startsWith "-"
+  let body := if negated then (t.drop 1).toString else t
+  match MJ.NumLex.eatNumber body.toList with
+  | (.err, _) => some .syntaxErr
+  | (tok, []) =>
+    match MJ.NumLex.tokRepr tok with
+    | some x => some (.val (if negated then neg x else .ok x))
+    | none => none
+  | _ => none
+
+/-- operand token → (what the engine computes with, mathematical value).  A negative literal is the
+    unary minus applied to the literal (folded by the code generator when it succeeds, an
     `Instruction::Neg` at run time otherwise). -/
-def parseOperand (tok : String) : Option (Res × Int) :=
+def parseOperand (tok : String) : Option (Opd × Int) :=
   match tok.splitOn ":" with
   | [form, v] =>
+    if form = "src" then
+      match v.splitOn "=" with
+      | [text, value] =>
+        match value.toInt?, lexLiteral text with
+        | some i, some o => some (o, i)
+        | _, _ => none
+      | _ => none
+    else
     match v.toInt? with
     | none => none
     | some i =>
       if form = "lit" then
-        if i < 0 then some (neg (litRepr i.natAbs), i) else some (.ok (litRepr i.toNat), i)
-      else if form = "u64" then some (.ok (.u64 i.toNat), i)
-      else if form = "i64" then some (.ok (.i64 i), i)
-      else if form = "u128" then some (.ok (.u128 i.toNat), i)
-      else if form = "i128" then some (.ok (.i128 i), i)
+        if i < 0 then some (.val (neg (litRepr i.natAbs)), i) else some (.val (.ok (litRepr i.toNat)), i)
+      else if form = "u64" ∨ form = "su64" ∨ form = "u8" ∨ form = "u16" ∨ form = "u32" ∨ form = "usize" then
+        some (.val (.ok (.u64 i.toNat)), i)
+      else if form = "i64" ∨ form = "si64" ∨ form = "i8" ∨ form = "i16" ∨ form = "i32" ∨ form = "isize" then
+        some (.val (.ok (.i64 i)), i)
+      else if form = "u128" ∨ form = "su128" then some (.val (.ok (.u128 i.toNat)), i)
+      else if form = "i128" ∨ form = "si128" then some (.val (.ok (.i128 i)), i)
       else none
   | _ => none
 
@@ -70,21 +99,31 @@ def specBin (op : Op) (a b : Int) : String :=
 def handle (line : String) : String :=
   let case := (line.splitOn "\t").head!
   match case.trimAscii.toString.splitOn " " with
+  | ["lex", text] =>
+    let src := text.toList
+    match MJ.NumLex.eatNumber src with
+    | (.int n, rest) => s!"{case}\tint:{n}@{src.length - rest.length}\t-"
+    | (.int128 n, rest) => s!"{case}\tint128:{n}@{src.length - rest.length}\t-"
+    | (.float _, rest) => s!"{case}\tfloat@{src.length - rest.length}\t-"
+    | (.err, _) => s!"{case}\terr:SyntaxError\t-"
   | ["neg", a] =>
     match parseOperand a with
-    | some (ra, va) =>
-      let m := match ra with
-        | .ok x => neg x
-        | .err => .err
-      s!"{case}\t{showRes m}\t{showSpec true false (-va) (decide (InI128 va) && decide (InI128 (-va)))}"
+    | some (oa, va) =>
+      let m := match oa with
+        | .val (.ok x) => showRes (neg x)
+        | .val .err => showRes .err
+        | .syntaxErr => "err:SyntaxError"
+      s!"{case}\t{m}\t{showSpec true false (-va) (decide (InI128 va) && decide (InI128 (-va)))}"
     | none => s!"{case}\tskip\t-"
   | [op, a, b] =>
     match parseOp op, parseOperand a, parseOperand b with
-    | some op, some (ra, va), some (rb, vb) =>
-      let m := match ra, rb with
-        | .ok x, .ok y => binop op x y
-        | _, _ => .err
-      s!"{case}\t{showRes m}\t{specBin op va vb}"
+    | some op, some (oa, va), some (ob, vb) =>
+      let m := match oa, ob with
+        | .syntaxErr, _ => "err:SyntaxError"
+        | _, .syntaxErr => "err:SyntaxError"
+        | .val (.ok x), .val (.ok y) => showRes (binop op x y)
+        | _, _ => showRes .err
+      s!"{case}\t{m}\t{specBin op va vb}"
     | _, _, _ => s!"{case}\tskip\t-"
   | _ => s!"{case}\tskip\t-"
 
